@@ -56,8 +56,11 @@ fn main() {
             "step" => mcw::steps::c01_step(&mut ctx),
             f => panic!("unknown family {}", f),
         },
+        "C03" | "C11" => mcw::c03::run(&mut ctx),
         "C04" => mcw::steps::c04(&mut ctx),
         "C05" => mcw::steps::c05(&mut ctx),
+        "C06" => mcw::c06::run(&mut ctx),
+        "C07" => mcw::c07::run(&mut ctx),
         "C08" => mcw::c08::run(&mut ctx),
         "C09" => mcw::steps::c09(&mut ctx),
         "C10" => mcw::steps::c10(&mut ctx),
